@@ -119,8 +119,11 @@ func randFaults(run *vk.Run, w *world.World) {
 	}
 	saved := rand.Reader
 	defer func() { rand.Reader = saved }()
+	// draws 1..last[name] are the file key and the recipients' own draws (DrawPlan of AgeFormat.tla); the draw after them is
+	// the payload nonce, made after the header is written: its failure is not a refusal of the recipient list
+	last := map[string]int{"x1": 2, "x1,x1": 3, "scrypt": 3, "e1,x1": 3}
 	for name, mk := range lists {
-		for k := 1; k <= 6; k++ {
+		for k := 1; k <= last[name]; k++ {
 			rs, id := mk()
 			fr := &failingRand{inner: saved, n: k}
 			var buf bytes.Buffer
